@@ -301,9 +301,9 @@ def prove(prop_id, modules):
         text = out + err
         # "'Name' depends on axioms: [a, b]" or "'Name' does not depend on any axioms"
         found = {}
-        for m in re.finditer(r"'([^']+)' depends on axioms: \[([^\]]*)\]", text.replace("\n", " ")):
+        for m in re.finditer(r"'(\S+?)' depends on axioms: \[([^\]]*)\]", text.replace("\n", " ")):
             found[m.group(1)] = [a.strip() for a in m.group(2).split(",") if a.strip()]
-        for m in re.finditer(r"'([^']+)' does not depend on any axioms", text):
+        for m in re.finditer(r"'(\S+?)' does not depend on any axioms", text):
             found[m.group(1)] = []
         for n in names:
             if n not in found:
